@@ -301,6 +301,7 @@ type Job struct {
 	Overrides map[string]string `json:"overrides,omitempty"`
 	TimeoutMS int               `json:"timeout_ms,omitempty"`
 	MaxSteps  int64             `json:"max_steps,omitempty"`
+	HangViol  bool              `json:"hang_viol,omitempty"` // exceeding the instruction budget is a violation candidate (termination is part of the property)
 	XCheck    bool              `json:"xcheck,omitempty"`
 	Solver    string            `json:"solver,omitempty"`
 	Fixed     map[string]uint64 `json:"fixed,omitempty"` // inputs forced to concrete values (debugging / translator validation)
@@ -371,6 +372,7 @@ type explorer struct {
 	newStubs  []string
 	modPrefix string
 	maxSteps  int64
+	hangViol  bool
 	maxConc   int
 
 	// ghost state (reset per path)
@@ -791,6 +793,7 @@ func (w *Worker) configure(job Job) (*ssa.Function, string) {
 		e.maxSteps = job.MaxSteps
 	}
 	e.xcheck = job.XCheck
+	e.hangViol = job.HangViol
 	e.sol.keep = true
 	return fn, ""
 }
@@ -825,6 +828,21 @@ func (w *Worker) RunPath(job Job) (res PathResult) {
 				res.Outcome, res.Why = "pruned", p.why
 			case abortPath:
 				res.Outcome, res.Why = "abort", p.why
+				if e.hangViol && strings.HasPrefix(p.why, "instruction budget exceeded") && !e.replaying() {
+					// candidate non-termination: the witness is decided by a native
+					// replay under a wall-clock limit (check.go, kind "hang")
+					v := Violation{Label: "non-termination", Kind: "hang", Msg: p.why, NPC: len(e.pc), Choices: e.choicesCopy()}
+					func() {
+						defer func() { recover() }()
+						if e.sol.check() == "sat" {
+							v.Model = e.model()
+						}
+					}()
+					if v.Model != nil {
+						e.viols = append(e.viols, v)
+						res.Outcome = "ok"
+					}
+				}
 			case targetPanic:
 				e.recordPanic("panic: "+panicText(p.v), &res)
 			case runtime.Error:
